@@ -220,6 +220,8 @@ class Oracle(object):
         # mode change as VIEW PRINT 1 TO 25
         self.tandy = cfg in ('tandy', 'pcjr')
         self.bar = False
+        # the function-key line as KEY ON (or a mode change with KEY ON) drew it at the current width
+        self.keyline = None
         self.mode, self.w = 0, 80
         self.first_switch = True
         self.top, self.bottom, self.active = 1, 24, False
@@ -338,8 +340,9 @@ class Oracle(object):
             top, bottom = (self.top, self.bottom) if self.active else (1, H)
             for r in range(1, H + 1):
                 exp = b' ' * self.w if top <= r <= bottom else rows0[r - 1]
-                if r == H and self.bar:
-                    exp = rows0[r - 1]      # the key line is redrawn
+                if r == H and self.bar and not self.active:
+                    # a whole-screen CLS draws the key line afresh (output parked on row 25 before may have overwritten it)
+                    exp = self.keyline if self.keyline is not None and len(self.keyline) == self.w else rows1[r - 1]
                 if rows1[r - 1] != exp:
                     self.fail('cls-content', i, 'row %d is %r after CLS (window %d..%d)' % (r, rows1[r - 1].rstrip(), top, bottom))
                     break
@@ -401,6 +404,8 @@ class Oracle(object):
                 elif w != self.w:
                     changed = self._switch(m, w if m == 0 else GRAPHICS_WIDTH[m])
             if err == '0':
+                if changed and self.bar:
+                    self.keyline = rows1[H - 1]
                 if w1 != self.w:
                     self.fail('width-not-as-requested', i, 'screen has %d columns, expected %d' % (w1, self.w))
                 elif changed:
@@ -424,6 +429,8 @@ class Oracle(object):
                         self.fail('key-off-key-line-left', i, 'row 25 is %r after KEY OFF' % rows1[H - 1].rstrip())
                 elif rows1[H - 1] != rows0[H - 1]:
                     self.fail('key-changed-screen', i, 'row 25 changed although the key line was already %s' % ('on' if want else 'off'))
+                if want and not self.bar:
+                    self.keyline = rows1[H - 1]
                 self.bar = want
                 if tw is not None:
                     tw.rows[H - 1] = bytearray(rows1[H - 1])
